@@ -92,6 +92,9 @@ def simulate(case):
                 elif kind == "app_gap":
                     w.peer_seq += 1  # an earlier frame of the peer was lost: numbered above expectation
                     w.peer("D", None, [(11, f"g{k}")])
+                elif kind == "rr_beyond":
+                    # the peer asks for numbers we never sent (BeginSeqNo beyond the last one): nothing to resend
+                    w.peer("2", None, [(7, 50), (16, 0)])
                 elif kind in ("tr", "tr_gap"):
                     nid += 1
                     rid = f"P{nid}" if nid % 2 else f"k=v{nid}=="  # '=' is legal inside a FIX String
@@ -333,6 +336,9 @@ def scripted_cases(quick):
                         hor = 12 * hq if hb < 30 else 5 * hq
                         cases.append(mk(pre_tr=True, arrivals={k: ["hb"] for k in range(2, hor + 1, max(1, min(4, hq - 4)))}))
                         cases.append(mk(pre_tr=True, answer=("right", 0)))
+                        # a ResendRequest for numbers never sent, then the peer only answers TestRequests
+                        cases.append(mk(arrivals={2: ["rr_beyond"]}, answer=("right", 0)))
+                        cases.append(mk(arrivals={2: ["rr_beyond"]}))
                         # the peer's Logon reveals a gap, then the peer is dead: no session state may hide it from the watchdog
                         cases.append(mk(logon_gap=True))
                     # inbound test requests
